@@ -1089,6 +1089,18 @@ class Engine(object):
         single3 = lambda: L.ListGrader(subgraders=S())
         add(r, 'ListGrader', dict(answers=[['a', 'b'], ['c', 'd', 'e']], subgraders=single3(), grouping=[1, 1, 2, 2, 2]), False, 'unordered groups of sizes 2 and 3')
         add(r, 'ListGrader', dict(answers=[['a', 'b'], ['c', 'd']], subgraders=single3(), grouping=[1, 1, 2, 2]), True)
+        # every combination of 2..4 groups of sizes 2..4 (group numbers in blocks and interleaved): accepted exactly when all sizes are equal
+        import itertools as _it
+        for G in (2, 3, 4):
+            for sizes in _it.product((2, 3, 4), repeat=G):
+                if G == 4 and len(set(sizes)) > 2:
+                    continue
+                blocks = [g + 1 for g, n_ in enumerate(sizes) for _ in range(n_)]
+                inter = [g + 1 for k in range(max(sizes)) for g in range(G) if k < sizes[g]]        # round-robin interleaving, still 1..G all present
+                answers = [[chr(97 + g) + str(k) for k in range(n_)] for g, n_ in enumerate(sizes)]
+                for grouping in (blocks, inter):
+                    add(r, 'ListGrader', dict(answers=answers, subgraders=single3(), grouping=grouping), len(set(sizes)) == 1,
+                        'unordered groups of sizes %s' % (sizes,))
         add(r, 'ListGrader', dict(answers=[['bat', 'ghost', 'pumpkin'], 'Halloween'], subgraders=[single3(), S()], ordered=True, grouping=[1, 1, 1, 2]), True)
         add(r, 'ListGrader', dict(answers=[['a', 'b'], ['c', 'd', 'e']], subgraders=[single3(), single3()], ordered=True, grouping=[1, 1, 2, 2, 2]), True)
         r = 'grouping: groups of several inputs go to a ListGrader'   # "the second level of grader is receiving multiple inputs, and so itself needs to be a ListGrader"
